@@ -52,7 +52,9 @@ def induced_failures(seed):
     return out
 
 
-def run(pid, tier, ev=None, vd=None, finish=True):
+def run(pid, tier, ev=None, vd=None, finish=True, accept=None):
+    """accept: set of Monitor labels reported under `pid` (default: {pid})"""
+    accept = accept or {pid}
     ev = ev or Evidence(pid, tier, "model_checking")
     vd = vd or Verdict(pid, ev)
     copia = vlib.build_repo()
@@ -91,7 +93,7 @@ def run(pid, tier, ev=None, vd=None, finish=True):
         with ThreadPoolExecutor(max_workers=12) as ex:
             for off, res in ex.map(validate, files):
                 for (ln, q) in res["bad"]:
-                    if q != pid:
+                    if q not in accept:
                         continue
                     e = recs[off + ln - 1]
                     vd.violation(f"{e['id']}-{e['dir']}", describe(e, q), {"kind": "oneway-edge", "edge": e})
